@@ -88,6 +88,7 @@ func init() {
 			cfg.Differ = rng.Chance(60)
 			cfg.SurplusPct = 30 // more counted links than the threshold: ALL of them have to agree
 			cfg.EmptyLastPct = 20
+			cfg.UncleanNamesPct = 20
 			cfg.OddSummaryPct = 25
 			if rng.Chance(40) {
 				cfg.Inspections = []string{"noop"}
@@ -97,7 +98,7 @@ func init() {
 			cfg.PopKinds = []string{"foreign", "unsigned", "tampered", "forged-keyid"}
 			cfg.ExtraPerStep = rng.Intn(2)
 			return cfg
-		}, "1-3 steps with thresholds 1-3, in 30% one counted link more than the threshold; counted links agree or one of them differs in one product path / digest / presence / hash algorithm set; the last step of a multi-step layout reports no products in a fifth of the cases; 40% carry an inspection, often named like the first or last step; uncounted links (foreign, unsigned, tampered, forged id) carry other artifacts; rules strict (MATCH + DISALLOW *), lenient or random; the requested summary name carries leading/trailing blanks, tabs, line ends in a quarter of the cases; compared: verdict and the summary's name, materials and products. Class = (differ?, kinds, verdict).")
+		}, "1-3 steps with thresholds 1-3, in 30% one counted link more than the threshold; counted links agree or one of them differs in one product path / digest / presence / hash algorithm set; the last step of a multi-step layout reports no products in a fifth of the cases; in a fifth of the chains every link records its artifacts under names that are not clean paths (./src/main.c) - rules see the clean names, the summary the recorded ones; 40% carry an inspection, often named like the first or last step; uncounted links (foreign, unsigned, tampered, forged id) carry other artifacts; rules strict (MATCH + DISALLOW *), lenient or random; the requested summary name carries leading/trailing blanks, tabs, line ends in a quarter of the cases; compared: verdict and the summary's name, materials and products. Class = (differ?, kinds, verdict).")
 	}
 	props["C08"] = func(r *Runner, tier string, rng *Rng) {
 		runChains(r, rng, tierN(tier, 220, 5000), func(i int) *ChainCfg {
